@@ -402,4 +402,43 @@ def verdictSpec : OnTestFailure → List Bool → Bool
   | .succeedEventually, fs => fs.all (fun f => f)      -- `fail`: passes iff every sample fails
   | .succeedImmediately, fs => fs.any (fun f => f)     -- `fail once`: passes iff some sample fails
 
+/-! ## `PropertyTest::run` / `run_n_times` / `run_once` over the modelled pieces -/
+
+/-- `as_prng` in `Prng::from_result`: "Clear choices between seeded runs" -/
+def Prng.cleared {S : SeedSys} : Prng S → Prng S
+  | .seeded seed _ => .seeded seed []
+  | p => p
+
+/-- what `PropertyTest::run` reports (`first` = the first failing case found, before `simplify`) -/
+inductive RunResult (α : Type) where
+  | pass (iterations : Nat)
+  | counterexample (choices : Choices) (value : α) (iterations : Nat) (first : Choices)
+  | illFormed            -- `.expect("A seeded PRNG returned 'None' …")`
+  | outOfFuel
+  | panic
+
+/-- `run_n_times` + `run_once`: `n` remaining iterations, `done` executed so far.  `fails a` is
+`eval(a).failed(..)`.  The closure given to `Cache::new` is `runOf` with "kept" as the predicate. -/
+def propertyRun (S : SeedSys) (g : Gen α) (fails : α → Bool) (otf : OnTestFailure) :
+    Nat → Nat → Prng S → RunResult α
+  | 0, done, _ => .pass done
+  | n + 1, done, prng =>
+    match g.sample prng with
+    | none => .illFormed
+    | some (prng', a) =>
+      if keepCounterexample otf (fails a) then
+        let c₀ := prng'.choices
+        -- `if !counterexample.choices.is_empty() { counterexample.simplify() }`
+        if c₀.isEmpty then .counterexample c₀ a (done + 1) c₀
+        else
+          match simplify (runOf S g (fun a => keepCounterexample otf (fails a))) (fuelBound c₀)
+              { value := a, choices := c₀ } with
+          | .ok s => .counterexample s.choices s.value (done + 1) c₀
+          | .outOfFuel => .outOfFuel
+          | .panic => .panic
+      else propertyRun S g fails otf n (done + 1) prng'.cleared
+
+/-- `Prng::from_seed` -/
+def Prng.fromSeed {S : SeedSys} (seed : S.σ) : Prng S := .seeded seed []
+
 end AikenVerif.Shrink
